@@ -473,6 +473,8 @@ InjectKeep(st0, s) ==
          Push(st0, SubjEmit(st0, s.a, s.t, s.v))
     [] s.k = "mappend" ->        \* MultiSubscription API: append handle b to the composite handle a
          Push(st0, <<F2("mappend", st0.subs[st0.handles[s.a]].a, st0.handles[s.b])>>)
+    [] s.k = "mretain" ->        \* MultiSubscription::retain() on the composite handle a
+         Push(st0, <<F1("retain", st0.subs[st0.handles[s.a]].a)>>)
     [] s.k = "mnew" ->           \* a fresh, empty MultiSubscription kept as a handle
          LET id == NextNode(st0)
              st1 == AddSub(AddNode(st0, [Node("multicell", 0) EXCEPT !.m = Mode(st0)]), SubRec("multi", id, 0)) IN
